@@ -101,12 +101,21 @@ func (s *PollingFollowReader) Read(buf []byte) (int, error) {
 				}
 			}
 		} else { // No re-open, if the file's missing, that's EOF
-			_, err := os.Stat(s.filename)
-			if err != nil {
+			st, err := os.Stat(s.filename)
+			if err != nil || !s.isOpenFile(st) { // gone, or removed and re-created since the last look
 				s.Close()
 				return 0, io.EOF
 			}
 		}
 
 	}
+}
+
+// isOpenFile reports whether st describes the file the open descriptor refers to
+func (s *PollingFollowReader) isOpenFile(st os.FileInfo) bool {
+	if s.f == nil {
+		return true
+	}
+	open, err := s.f.Stat()
+	return err != nil || os.SameFile(open, st)
 }
